@@ -375,6 +375,15 @@ def gen_C15(ctx):
     for cp in utf8_boundary_scalars() + (list(range(0x80, 0x110000, 1 if ctx.tier == "thorough" else 97))):
         if not 0xD800 <= cp <= 0xDFFF:
             out.append(case("ptype " + hx(chr(cp)), "ptype-scalar"))
+    # compatibility forms of the names (what NFKC, a width fold or an "invisible character" filter would turn into the name)
+    for name in KNOWN_TYPES:
+        forms = ["".join(chr(0xFF00 + ord(c) - 0x20) for c in name), "".join(chr(0x1D41A + ord(c) - 97) for c in name),
+                 "".join(chr(0x24D0 + ord(c) - 97) for c in name), name[0] + "\u200d" + name[1:], name[0] + "\u00ad" + name[1:], name + "\u0301",
+                 name[0] + "\u200b" + name[1:], "\u202e" + name, name + "\u2069", name.replace("a", "\u0430").replace("o", "\u043e").replace("p", "\u0440").replace("c", "\u0441").replace("e", "\u0435")]
+        for f_ in forms:
+            if f_ != name:
+                out.append(case("ptype " + hx(f_), "ptype-compat"))
+                out.append(case("parse P " + hx("pkg:%s/ns/name@1" % f_), "ptype-escaped", s="pkg:%s/ns/name@1" % f_, shape="P"))
     # the type string used IN a PURL: every case variant of every name, parsed typed; and the serde form of the type
     for c in st_ptype_exhaustive():
         s_ = "pkg:%s/ns/name@1.0" % c["s"]
@@ -462,7 +471,9 @@ def gen_C16(ctx):
             out.append(case("parse %s %s" % (sh, hx(s)), "de-reference", s=s, shape=sh))
             out.append(case("serde %s de %s" % (sh, hx(doc)), "de-string", doc=doc, s=s, shape=sh, reference=len(out) - 1))
     others = ["null", "true", "false", "1", "-1.5e3", "[]", '["pkg:t/n"]', "{}", '{"purl":"pkg:t/n"}', '"pkg:t/n', "pkg:t/n",
-              '"pkg:t/n" x', "", '"\\ud800"', '"pkg:t/\\x"', '"a\nb"'.replace("\\n", "\n"), "[1,2", '"pkg:t/n"}', "nul"]
+              '"pkg:t/n" x', "", '"\\ud800"', '"pkg:t/\\x"', '"a\nb"'.replace("\\n", "\n"), "[1,2", '"pkg:t/n"}', "nul",
+              '{"type":"npm","name":"foo"}', '{"type":"npm","namespace":null,"name":"foo","version":"1.0","qualifiers":{},"subpath":null}',
+              '["npm","foo","1.0"]', '{"pkg:npm/foo":null}', '[["type","npm"],["name","foo"]]', '{"scheme":"pkg","type":"npm","name":"foo"}', '112', '"\u0000"']
     for doc in others:
         for sh in ("S", "P"):
             out.append(case("serde %s de %s" % (sh, hx(doc)), "de-other", doc=doc, shape=sh))
